@@ -123,7 +123,11 @@ var urlSchemas = map[string]*jsonapi.Schema{}
 // parsed meanwhile, and the attribute was removed again.  What a parse returns depends on what the
 // schema holds now, not on what it held or was asked before.
 func urlSchemaWithHistory(impl string) *jsonapi.Schema {
-	s := buildURLSchema(impl)
+	s := &jsonapi.Schema{}
+	must(s.AddType(jsonapi.Type{Name: "aa0"})) // a type that goes away again: the others move up
+	for _, t := range buildURLSchema(impl).Types {
+		must(s.AddType(t))
+	}
 	for _, t := range []string{"ta", "tb", "td"} {
 		must(s.AddAttr(t, jsonapi.Attr{Name: "zx", Type: jsonapi.AttrTypeString}))
 	}
@@ -135,6 +139,7 @@ func urlSchemaWithHistory(impl string) *jsonapi.Schema {
 	for _, t := range []string{"ta", "tb", "td"} {
 		s.RemoveAttr(t, "zx")
 	}
+	s.RemoveType("aa0")
 	return s
 }
 
